@@ -1,8 +1,8 @@
 (* C10 — KRPC wire format round-trips and matches the BEPs. Statements only.
-   PARTIAL: the unbounded theorem `forall m, wf m -> of_bytes (to_bytes m) = DOk (norm m)` is NOT proved
-   here (see DESIGN.md); its ingredients below are, and the statement itself is evaluated by the check on
-   every generated message, on the implementation's own bytes and decode result. *)
-From MLV Require Import model.Bytes model.Id model.Server model.Bencode model.Krpc model.Check10 proofs.BencodeProofs proofs.KrpcProofs.
+   The unbounded round trip `of_bytes (to_bytes m) = DOk (norm m)` is proved for every well-formed message
+   (C10_round_trip); the statement is also evaluated by the check on every generated message, on the
+   implementation's own bytes and decode result (that is what ties the two models to the code). *)
+From MLV Require Import model.Bytes model.Id model.Server model.Bencode model.Krpc model.Check10 proofs.BencodeProofs proofs.KrpcProofs proofs.RoundTrip.
 Open Scope N_scope.
 
 (* the byte-level codec round-trips, unboundedly: for every bencode value whose integers fit an i64 (and
@@ -13,6 +13,29 @@ Proof. exact ben_parse_enc. Qed.
 
 Theorem C10_bencode_printer_injective : forall v w, ben_wf v = true -> ben_wf w = true -> enc v = enc w -> v = w.
 Proof. exact enc_injective. Qed.
+
+(* the KRPC round trip, unboundedly: for every message the library can build — all request kinds (ping,
+   find_node, get_peers, get_signed_peers, get, the four puts), all eight response kinds, errors; every
+   optional field present or absent; ids of 20 bytes, keys of 32, signatures of 64, ports below 2^16, IPv4
+   addresses, seq / cas over the full i64 range and timestamps over the full u64 range, error codes over
+   i32 with UTF-8 descriptions; tokens, values, salts, node lists and peer lists of any size — decoding
+   the encoding yields the message itself, up to `norm` (the salt of a get request is never sent).
+   `ben_wf (to_ben m)` only says that no byte string is 2^64 bytes long or longer. *)
+Theorem C10_round_trip : forall m, kmsg_ok m -> ben_wf (to_ben m) = true -> of_bytes (to_bytes m) = DOk (norm m).
+Proof. exact krpc_bytes_roundtrip. Qed.
+
+(* non-vacuity: a put_mutable request with every optional field, and a get_peers response with nodes and values *)
+Example C10_round_trip_nonvacuous :
+  let id20 := repeat 7 20 in
+  let m1 := {| m_tid := 513; m_version := Some [82; 83; 0; 6]; m_ip := Some (3232235777, 6881);
+               m_mt := MRequest id20 (KPut [1; 2; 3] (KPutMut id20 [104; 105] (repeat 1 32) (-5)%Z (repeat 2 64) (Some [115]) (Some 9223372036854775807%Z)));
+               m_ro := true |} in
+  let m2 := {| m_tid := 4294967295; m_version := None; m_ip := None;
+               m_mt := MResponse (KRGetPeers id20 [9] [(167772161, 1); (2130706433, 65535)] (Some [(id20, 16909060, 6881)]));
+               m_ro := false |} in
+  ben_wf (to_ben m1) = true /\ ben_wf (to_ben m2) = true /\
+  of_bytes (to_bytes m1) = DOk (norm m1) /\ of_bytes (to_bytes m2) = DOk (norm m2).
+Proof. vm_compute. auto. Qed.
 
 (* canonical bencode: every dictionary the encoder emits (top level, `a`, `r`) has strictly ascending keys *)
 Theorem C10_encoder_dictionaries_sorted : forall m,
@@ -65,6 +88,8 @@ Example C10_two_and_four_byte_tids :
       with DOk m => m_tid m | _ => 0 end) = 1633771873.
 Proof. vm_compute. split; reflexivity. Qed.
 
+Print Assumptions C10_round_trip.
+Print Assumptions C10_round_trip_nonvacuous.
 Print Assumptions C10_bencode_round_trip.
 Print Assumptions C10_bencode_printer_injective.
 Print Assumptions C10_encoder_dictionaries_sorted.
